@@ -25,7 +25,8 @@ for d in sorted(glob.glob(os.path.join(ROOT, 'seeded', '*'))):
         prob.append('suite?')
     if v['demo_exit_without_change'] != 0 or v['demo_exit_with_change'] != 1:
         prob.append('demo?')
-    if (v['checks'] or {}).get(m['property'], {}).get('status') != 'CAUGHT':
+    watch = [m['property']] + list(m.get('also_check', []))
+    if not any((v['checks'] or {}).get(p, {}).get('status') == 'CAUGHT' for p in watch):
         prob.append('not caught')
     if prob:
         print('  !!', os.path.basename(d), prob)
